@@ -35,6 +35,8 @@ ASSUMPTIONS = [
     "not as a violation (refusals are C08/C10's subject).",
     "Backend passes are applied in the order real backends use (extract_metadata, method->function form, aggregate shortcuts, "
     "simplification) cumulatively and each alone.",
+    "LINQ has no comprehension syntax: a ListComp/GeneratorExp node in the AST the executor receives is a violation (all three "
+    "operators lower single-for comprehensions; only those are generated). Record constructors left in the query fail as unbound names.",
 ]
 BUDGET = {"quick": (8, 350), "thorough": (16, 3000)}
 
@@ -48,6 +50,8 @@ def hscale(a): return a * 2
 def hadd(a, b=1):
     return a + b
 hsecond = lambda a, b: b - a
+def hsub(a, b):
+    return a - b * 2
 @dataclass
 class R1:
     f_a: object
@@ -263,7 +267,7 @@ def check(case) -> Result:
 
     forms = {s.get("form") for s in case["stages"]}
     feats = []
-    if "K1" in user_part or "K2" in user_part or "hscale(" in user_part or "hadd(" in user_part or "hsecond(" in user_part:
+    if "K1" in user_part or "K2" in user_part or "hscale(" in user_part or "hadd(" in user_part or "hsecond(" in user_part or "hsub(" in user_part:
         feats.append("capture/helper")
     if " for " in user_part or "R1(" in user_part or "R2(" in user_part or "R3(" in user_part or "N1(" in user_part or "N2(" in user_part or "N3(" in user_part or "Q3(" in user_part or "QN3(" in user_part:
         feats.append("sugar")
@@ -340,9 +344,12 @@ def _one_round(case, r, mod_py, mod, RecDS, feats, user_part, rnd):
                     return r.fail(f"backend pass {pname} raised {type(e).__name__}: {e} on {ast.unparse(received)[:400]}\n{user_part}")
                 variants.append((f"after {pname} alone", alone))
                 variants.append((f"after the passes up to {pname}", cur))
+            left = sorted({type(n).__name__ for n in ast.walk(received) if isinstance(n, (ast.ListComp, ast.GeneratorExp, ast.SetComp, ast.DictComp))})
+            if left:
+                return r.fail(f"stream {name}: {'/'.join(left)} syntax reaches the executor (LINQ has no comprehensions; every operator lowers them): {_u(received)[:500]}\n{user_part}")
             for vname, tree in variants:
                 env = {"EventDataset": lambda: pyeval.DSeq(typed_model.build(case["data"], lazy=True))}
-                for h in ("hscale", "hadd", "hsecond"):  # helpers that were not inlined are left as calls by name
+                for h in ("hscale", "hadd", "hsecond", "hsub"):  # helpers that were not inlined are left as calls by name
                     env[h] = getattr(mod, h)
                 try:
                     got = pyeval.materialise(pyeval.evaluate(tree, env))
